@@ -51,7 +51,7 @@ def reload_search(tier, variant='three'):
         services = [('a.svc', 'login'), ('b.svc', 'dronecheck')]
         rules = rules_for(services)
         tables = {'no-a.conf': services[1:], 'no-b.conf': services[:1], 'none.conf': [], 'orig.conf': services}
-        base = alpha.make([1], data=('H',), ends=('D',), passwords=('x',), replies=('OK', 'NO'), old_replies=(), malformed=(), ghost_replies=(), pbudget=1, dead_probes=False, reannounce=False)
+        base = alpha.make([1], data=('H',), ends=('D',), passwords=('x',), replies=('OK', 'NO', 'AGAIN'), old_replies=(), malformed=(), ghost_replies=(), pbudget=2, dead_probes=False, reannounce=False)
         alph = lambda st, w: base(st, w) + [('RL', f) for f in tables]
         files = {n: (lambda md_, t=t: e1.conf_text(md_, services=t, timeout=30, rules=rules)) for n, t in tables.items()}
         return dict(label='solo/reloads-refuse/login+drone/t30', services=services, rules=rules, timeout=30, ids=[1], alphabet=alph, flags=e1.F_DUMP | e1.F_STATS,
